@@ -11,6 +11,7 @@ import (
 	"github.com/massnetorg/mass-core/logging"
 	"pgregory.net/rapid"
 	"verifharness/ev"
+	"verifharness/guard"
 	"verifharness/ref"
 )
 
@@ -20,7 +21,12 @@ func TestMain(m *testing.M) {
 		logDir, _ = os.MkdirTemp("", "verif-log")
 		defer os.RemoveAll(logDir)
 	}
-	logging.Init(logDir, "wallet.log", "fatal", 1, true)
+	lvl := os.Getenv("VERIF_LOGLEVEL")
+	if lvl == "" {
+		lvl = "fatal"
+	}
+	logging.Init(logDir, "wallet.log", lvl, 1, os.Getenv("VERIF_LOGLEVEL") == "")
+	guard.Install()
 	if err := ref.SelfTest(); err != nil {
 		fmt.Println("HARNESS-ERROR: reference self-test failed:", err)
 		os.Exit(3)
